@@ -1,2 +1,4 @@
 import OtelVerif.Props.C06
 import OtelVerif.Props.C09
+import OtelVerif.Props.C17
+import OtelVerif.Props.C17Meter
